@@ -27,6 +27,8 @@ func init() {
 			{ID: "C17.R9", Floor: 1, Run: dumpVerbatim, Text: "the dump copies the pool's entries verbatim (bulk append/copy/Clone of entityPool.entities): a dead entry's id field is the free-list link and must survive"},
 			{ID: "C17.R10", Floor: 1, Run: rootTablesNotEnumerated, Text: "World.archetypes (tables of relation-free nodes only) is never iterated as if it were all tables: its Len() is used only as the index of the table just added"},
 			{ID: "C17.R11", Floor: 2, Run: jsonReceiverKinds, Text: "Entity.MarshalJSON has a value receiver and UnmarshalJSON a pointer receiver (go/types): entities held by value must encode through it"},
+			{ID: "C17.R12", Floor: 2, Run: poolRestoredVerbatim, Text: "LoadEntities restores entityPool.next and .available from the dump's Next and Available as recorded (not recomputed from lengths: slot 0 is reserved)"},
+			{ID: "C17.R13", Floor: 2, Run: decodeBufferWidth, Text: "the JSON decode buffer of an Entity has unsigned elements of at least 32 bits: ids and generations use the full uint32 range"},
 			{ID: "C17.R4", Floor: 2, Run: c17r4, Text: "no alias of the dump: the slices LoadEntities stores into the pool and the index derive only from make/append-to-fresh, never from a field of the parameter"},
 		},
 	})
@@ -51,6 +53,8 @@ func init() {
 			{ID: "C02.R12", Floor: 15, Run: c10r1, Text: "no creation before validation (= C10.R1): a creation call that panics has created nothing, so alive = creations − removals also for callers that recover"},
 			{ID: "C02.R13", Floor: 1, Run: dumpVerbatim, Text: "the dump copies the pool's entries verbatim (= C17.R9): a rebuilt entry loses the free-list link and the loaded world issues one handle twice"},
 			{ID: "C02.R14", Floor: 7, Run: c01r2, Text: "alloc ⇄ index (= C01.R2): a row allocated for an entity is recorded in World.entities itself, not in a copy of the entry; a stale entry makes a later removal recycle another entity's id"},
+			{ID: "C02.R15", Floor: 2, Run: poolRestoredVerbatim, Text: "LoadEntities restores the pool's free-list head and count verbatim (= C17.R12): an off-by-one count issues the reserved zero id"},
+			{ID: "C02.R16", Floor: 3, Run: targetFlagsCoverIndex, Text: "the target flags are resized in step with the entity index (= C06.R14)"},
 		},
 	})
 }
